@@ -1,6 +1,7 @@
 package main
 
 import (
+	"sort"
 	"fmt"
 	"go/token"
 	"strings"
@@ -17,7 +18,9 @@ func disciplineObligations(fn *ssa.Function, name string, fc *FuncContract, enc 
 	v, ok := fc.Opts["cancelable"]
 	nb, okNB := fc.Opts["nonblocking"]
 	sc, okSC := fc.Opts["stablecapture"]
-	if !ok && !okNB && !okSC {
+	ex, okEX := fc.Opts["exhaustive"]
+	nbk, okNBK := fc.Opts["nobreak"]
+	if !ok && !okNB && !okSC && !okEX && !okNBK {
 		return nil
 	}
 	tags := splitList(strings.Trim(v, "[]"))
@@ -25,6 +28,12 @@ func disciplineObligations(fn *ssa.Function, name string, fc *FuncContract, enc 
 		tags = splitList(strings.Trim(nb, "[]"))
 	}
 	var out []*Obligation
+	if okEX || okNBK {
+		out = append(out, loopExitObligations(fn, name, enc, okEX, optTags(ex+" "+nbk))...)
+		if !ok && !okNB && !okSC {
+			return out
+		}
+	}
 	isDone := func(ch ssa.Value) bool {
 		c, ok := ch.(*ssa.Call)
 		return ok && c.Call.IsInvoke() && c.Call.Method.Name() == "Done"
@@ -204,4 +213,106 @@ func hasKind(out []*Obligation, what string) bool {
 		}
 	}
 	return false
+}
+
+// loopExitObligations: `opt exhaustive` - every loop of the function is left
+// only when its condition (range) is exhausted: no break, goto or return out
+// of the body; `opt nobreak` - the same, but returning (or panicking) from
+// inside a loop is allowed. With per-iteration obligations (each element is
+// handled correctly) this gives completeness: every element is handled.
+func loopExitObligations(fn *ssa.Function, name string, enc *Enc, exhaustive bool, tags []string) []*Obligation {
+	var out []*Obligation
+	// natural loops
+	type loop struct {
+		h    *ssa.BasicBlock
+		body map[*ssa.BasicBlock]bool
+	}
+	loops := map[*ssa.BasicBlock]*loop{}
+	for _, b := range fn.Blocks {
+		for _, s := range b.Succs {
+			if !s.Dominates(b) {
+				continue
+			}
+			l := loops[s]
+			if l == nil {
+				l = &loop{h: s, body: map[*ssa.BasicBlock]bool{s: true}}
+				loops[s] = l
+			}
+			work := []*ssa.BasicBlock{b}
+			for len(work) > 0 {
+				x := work[len(work)-1]
+				work = work[:len(work)-1]
+				if l.body[x] {
+					continue
+				}
+				l.body[x] = true
+				work = append(work, x.Preds...)
+			}
+		}
+	}
+	// does control from b inevitably reach a return or panic without re-entering a loop?
+	var leaves func(b *ssa.BasicBlock, depth int) bool
+	leaves = func(b *ssa.BasicBlock, depth int) bool {
+		if depth > 8 || len(b.Instrs) == 0 {
+			return false
+		}
+		switch b.Instrs[len(b.Instrs)-1].(type) {
+		case *ssa.Return, *ssa.Panic:
+			return true
+		}
+		if len(b.Succs) == 1 {
+			return leaves(b.Succs[0], depth+1)
+		}
+		return false
+	}
+	var hs []*ssa.BasicBlock
+	for h := range loops {
+		hs = append(hs, h)
+	}
+	sort.Slice(hs, func(i, j int) bool { return hs[i].Index < hs[j].Index })
+	n := 0
+	for _, h := range hs {
+		l := loops[h]
+		okk := true
+		var pos token.Pos
+		for b := range l.body {
+			if b == h {
+				continue
+			}
+			for _, s := range b.Succs {
+				if l.body[s] {
+					continue
+				}
+				if !exhaustive && leaves(s, 0) {
+					continue
+				}
+				okk = false
+				for _, in := range b.Instrs {
+					if in.Pos().IsValid() {
+						pos = in.Pos()
+					}
+				}
+			}
+		}
+		if !pos.IsValid() {
+			for _, in := range h.Instrs {
+				if in.Pos().IsValid() {
+					pos = in.Pos()
+					break
+				}
+			}
+		}
+		n++
+		st, goal := "unsat", "true"
+		if !okk {
+			st, goal = "sat", "false"
+		}
+		p := fn.Prog.Fset.Position(pos)
+		label := fmt.Sprintf("loop-exit-%d", n)
+		out = append(out, &Obligation{Name: fmt.Sprintf("%s/discipline/%s", name, label), Func: name, Kind: "discipline",
+			Label: label, Tags: tags, Goal: goal, Guard: "true", Enc: enc, Src: "the loop is left only when its range or condition is exhausted (no break out of the body)",
+			Where:  fmt.Sprintf("%s:%d", shortPath(p.Filename), p.Line),
+			Result: &SolveResult{Status: st, Solver: "ssa-dataflow", All: map[string]string{"ssa-dataflow": st}}})
+	}
+	return out
 }
